@@ -32,6 +32,9 @@ func (s *e2eIface) VarlinkGetDescription() string {
 	return "interface org.example.e2e\nmethod M() -> ()\n"
 }
 func (s *e2eIface) VarlinkDispatch(ctx context.Context, c varlink.Call, method string) error {
+	if method == "Slow" {
+		time.Sleep(350 * time.Millisecond) // the reply arrives after an earlier call's deadline would have expired
+	}
 	var raw json.RawMessage
 	rec := "\x00absent"
 	if err := c.GetParameters(&raw); err == nil {
@@ -234,6 +237,10 @@ func init() {
 				return err
 			}
 			ncalls := 1 + g.Intn(3)
+			deadlineThenSlow := g.Chance(1, 25)
+			if deadlineThenSlow && ncalls < 2 {
+				ncalls = 2
+			}
 			l := &Line{}
 			l.S("e2e").S(transport).N(ncalls)
 			type callObs struct {
@@ -243,13 +250,21 @@ func init() {
 			var calls []e2eCall
 			var obs []callObs
 			cctx, cancel := context.WithTimeout(ctx, 8*time.Second)
+			// pattern "deadline, then none": the first call runs under a context with a short deadline and is
+			// answered at once; the second runs under a context WITHOUT deadline and is answered only after that
+			// deadline has passed — nothing of the first call's deadline may survive on the connection
 			for k := 0; k < ncalls; k++ {
 				c := e2eCall{method: "org.example.e2e.M"}
-				switch g.Intn(10) {
-				case 0:
-					c.method = "org.varlink.service.GetInfo"
-				case 1:
-					c.method = "org.example.none.M"
+				if deadlineThenSlow && k == 1 {
+					c.method = "org.example.e2e.Slow"
+				}
+				if !deadlineThenSlow {
+					switch g.Intn(10) {
+					case 0:
+						c.method = "org.varlink.service.GetInfo"
+					case 1:
+						c.method = "org.example.none.M"
+					}
 				}
 				more := g.Chance(1, 2)
 				if more {
@@ -289,12 +304,20 @@ func init() {
 				}
 				calls = append(calls, c)
 				o := callObs{}
-				receive, err := conn.Send(cctx, c.method, params, c.flags)
+				callCtx := cctx
+				var cancelCall context.CancelFunc = func() {}
+				if deadlineThenSlow && k == 0 {
+					callCtx, cancelCall = context.WithTimeout(ctx, 200*time.Millisecond)
+				}
+				if deadlineThenSlow && k == 1 {
+					callCtx = ctx // no deadline at all
+				}
+				receive, err := conn.Send(callCtx, c.method, params, c.flags)
 				o.sendOK = err == nil
 				if err == nil && !oneway {
 					for {
 						var out json.RawMessage
-						fl, err := receive(cctx, &out)
+						fl, err := receive(callCtx, &out)
 						r := classifyRecv(fl, err, out)
 						o.res = append(o.res, r)
 						if r.kind != "reply" || fl&varlink.Continues == 0 || len(o.res) > 200 {
@@ -302,6 +325,7 @@ func init() {
 						}
 					}
 				}
+				cancelCall()
 				obs = append(obs, o)
 			}
 			cancel()
